@@ -62,8 +62,7 @@ def scores_for(paths, C, style):
 def setup(tier):
     from mc import stubs
     for C in (2, 3, 4):
-        stubs.ensure_pixel_stub(C, 1, 0.0, 0)
-        stubs.engine_json(f'engine_c{C}_p1_b0.0_x0_h{H}', stubs.stub_path(C, 1, 0.0, 0), CHARS[:C - 1], H)
+        stubs.ctc_engine_json(C, CHARS[:C - 1], line_px_height=H, pool=1)
 
 
 def engine(C):
